@@ -265,3 +265,20 @@ VARIANTS = V
 add("C21", "seed preparation starts at the resume index", "nifty/cl/minimization/optimize_kl.py", "    for iglobal in range(total_iterations):\n        if not fresh_stochasticity(iglobal):", "    for iglobal in range(initial_index, total_iterations):\n        if not fresh_stochasticity(iglobal):", "R21.9")
 add("C25", "seed preparation starts at the resume index", "nifty/cl/minimization/optimize_kl.py", "    for iglobal in range(total_iterations):\n        if not fresh_stochasticity(iglobal):", "    for iglobal in range(initial_index, total_iterations):\n        if not fresh_stochasticity(iglobal):", "R25.5")
 VARIANTS = V
+
+add("C23", "bcast sends the array as it is", "nifty/cl/utilities.py", "        data = (np.ascontiguousarray(obj).reshape(shape) if master\n                else np.empty(shape, dtype))", "        data = obj if master else np.empty(shape, dtype)", "R23.7")
+VARIANTS = V
+
+add("C14", "controller keeps its convergence counter between runs", "nifty/cl/minimization/iteration_controllers.py",
+    "    @append_history\n    def start(self, energy):\n        self._itcount = -1\n        self._ccount = 0\n        self._Eold = 0.\n        return self.check(energy)\n\n    @append_history\n    def check(self, energy):\n        self._itcount += 1\n\n        inclvl = False\n        Eval = energy.value\n        diff = abs(self._Eold-Eval)",
+    "    @append_history\n    def start(self, energy):\n        self._itcount = -1\n        return self.check(energy)\n\n    @append_history\n    def check(self, energy):\n        self._itcount += 1\n\n        inclvl = False\n        Eval = energy.value\n        diff = abs(self._Eold-Eval)", "R14.5")
+add("C14", "CG overwrites the cached gradient norm", "nifty/cl/minimization/conjugate_gradient.py", "            status = controller.check(energy)\n            if status != controller.CONTINUE:",
+    "            energy._gradnorm = np.sqrt(gamma)\n            status = controller.check(energy)\n            if status != controller.CONTINUE:", "R14.6")
+add("C14", "relative criterion with an absolute floor", "nifty/cl/minimization/iteration_controllers.py", "rel = abs(self._Eold-Eval)/max(abs(self._Eold), abs(Eval))", "rel = abs(self._Eold-Eval)/max(abs(self._Eold), abs(Eval), 1.)", "R14.7")
+add("C22", "mirrored sample warm-started from the task-local list", "nifty/cl/minimization/kl_energies.py", "                pos = sam_position - yi if neg else sam_position + yi",
+    "                pos = sam_position - local_samples[-1] if (neg and len(local_samples) > 0) else (sam_position - yi if neg else sam_position + yi)", "R22.5")
+add("C17", "compiled line search halves after the reset", "nifty/re/optimize.py",
+    "        grad_scaling = jnp.where(status < -1, grad_scaling / 2, grad_scaling)\n\n        do_reset = (i == 5) & (status < -1)\n        reset = jnp.where(do_reset, True, reset)\n        grad_scaling = jnp.where(do_reset, 1.0, grad_scaling)\n",
+    "\n        do_reset = (i == 5) & (status < -1)\n        reset = jnp.where(do_reset, True, reset)\n        grad_scaling = jnp.where(do_reset, 1.0, grad_scaling)\n        grad_scaling = jnp.where(status < -1, grad_scaling / 2, grad_scaling)\n", "R17.4")
+add("C17", "trust region takes the farther boundary point", "nifty/re/conjugate_gradient.py", "p_boundary = where(soa(pa) < soa(pb), pa, pb)", "p_boundary = where(vdot(z, d) > 0, pa, pb)", "R17.5")
+VARIANTS = V
